@@ -78,6 +78,8 @@ class Ctx:
         self.input_ids = set()
         self.lazy_sqrt = False
         self._keep = []
+        self.incremental = False
+        self._inc = None
         self.sqrt_memo = {}   # (radicand ast id, lazy) -> (y, nan condition, radicand kept alive)
 
     # -- assumptions -----------------------------------------------------
@@ -93,6 +95,8 @@ class Ctx:
         self.conds.append(c)
         self.cond_vars.append(self.vars_of(c))
         self.cond_def.append(defines.get_id() if defines is not None else None)
+        if self._inc is not None:
+            self._inc.add(c)
 
     def vars_of(self, t):
         """ids of the uninterpreted constants in term t.
@@ -151,6 +155,23 @@ class Ctx:
     def solve(self, extra, timeout, full=False):
         """check-sat of (sliced or full) path condition + extra. Returns (result, model|None)."""
         extra = [e for e in extra]
+        if self.incremental:
+            # one solver kept alive for the whole path (engine L: thousands of small linear queries)
+            if self._inc is None:
+                self._inc = z3.Solver()
+                self._inc.add(*self.conds)
+            self._inc.set("timeout", int(timeout))
+            t0 = time.time()
+            self._inc.push()
+            try:
+                self._inc.add(*extra)
+                r = self._inc.check()
+                m = self._inc.model() if r == z3.sat else None
+            finally:
+                self._inc.pop()
+            self.nqueries += 1
+            self.solver_time += time.time() - t0
+            return r, m
         conds = self.conds if full else self.relevant(extra)
         s = z3.Solver()
         s.set("timeout", int(timeout))
